@@ -1212,7 +1212,6 @@ class Process(StateMachine, persistence.Savable, metaclass=ProcessStateMachineMe
                 # Not going to pause after all
                 self._pausing.cancel()
                 self._pausing = None
-                self._set_interrupt_action(None)
             return True
 
         call_with_super_check(self.on_playing)
@@ -1347,10 +1346,9 @@ class Process(StateMachine, persistence.Savable, metaclass=ProcessStateMachineMe
                 # be an interrupt action ready to be executed, so just check if the cookie matches
                 # that of the exception i.e. if it is the _same_ interruption.  If not cancel and
                 # build the interrupt action below
-                if self._interrupt_action is not None:
-                    if self._interrupt_action.cookie is not exception:
-                        self._set_interrupt_action_from_exception(exception)
-                else:
+                # an action set through pause()/kill() (possibly a later one, or one retracted by play()) outranks
+                # the interruption that was delivered; only build one if the interruption came from elsewhere
+                if self._interrupt_action is None:
                     self._set_interrupt_action_from_exception(exception)
 
             except KeyboardInterrupt:
@@ -1367,7 +1365,7 @@ class Process(StateMachine, persistence.Savable, metaclass=ProcessStateMachineMe
             if self.has_terminated():
                 # Terminated while the step was in flight (e.g. through fail()), nothing left to do
                 pass
-            elif self._interrupt_action:
+            elif self._interrupt_action is not None and not self._interrupt_action.cancelled():
                 self._interrupt_action.run(next_state)
             else:
                 # Everything nominal so transition to the next state
